@@ -9,7 +9,7 @@
     the check (binary vs library vs this model), not by a theorem; thread-count
     independence of the deterministic method is C06. *)
 From Coq Require Import Reals List Bool NArith.
-From Cfr.theories Require Import Num RInst Tree Valid Strat Eval Cli CliProofs.
+From Cfr.theories Require Import Num RInst Tree Valid Strat Eval Solve Cli CliProofs PresentationProofs CliMoreProofs.
 Import ListNotations.
 Open Scope R_scope.
 
@@ -54,6 +54,30 @@ Theorem C16_regret_is_min :
     Rmin (@si_regret RNum (@info RNum g (@truncate RNum g clip prof))) (@si_regret RNum (@info RNum g prof)).
 Proof. exact cli_regret_min. Qed.
 
+(** 4. a JSON and a Gambit encoding of the same game give the same game, hence the same
+       evaluation, the same solution by every method and the same printed object *)
+Theorem C16_json_gambit_same_solution :
+  forall (numname : N -> N) (a : agame),
+    awf a ->
+    match @gambit_load RNum numname (enc_gambit a), @json_load RNum (enc_json a) with
+    | Loaded (g, s), Loaded (g', s') =>
+        s = 0 /\ s' = 0 /\ g' = g /\ same_core g g' /\
+        (forall prof, @info RNum g' prof = @info RNum g prof) /\
+        (forall m draw p budget stop,
+            @solve_single RNum g' m draw p budget stop = @solve_single RNum g m draw p budget stop) /\
+        (forall clip prof, @cli_choose RNum g' s' clip prof = @cli_choose RNum g s clip prof)
+    | Rejected r, Rejected r' => r = r' /\ exists e, r = RGame e
+    | _, _ => False
+    end.
+Proof. exact json_gambit_same_solution. Qed.
+
+(** chance infoset labels that are pairwise distinct are immaterial (every number type) *)
+Theorem C16_distinct_chance_labels_immaterial :
+  forall (NN : Num) (t : @gnode NN), NoDup (clabels t) -> from_root (cerase t) = from_root t.
+Proof. intros NN. exact (@cerase_from_root NN). Qed.
+
+Print Assumptions C16_json_gambit_same_solution.
+Print Assumptions C16_distinct_chance_labels_immaterial.
 Print Assumptions C16_pruned_iff_strictly_lower.
 Print Assumptions C16_printed_profile.
 Print Assumptions C16_printed_valid.
